@@ -38,7 +38,13 @@ DYN = ['x', 's', 'xs', 'top.cnt', '(do (print "p") 3)', '(do (step) 0)', '(do (s
 
 def gen_sensitive(rng):
     """shapes on which the rewrites decide: literal conditions, literal prefixes followed by run-time operands"""
-    k = rng.choice(['if', 'if', '+', '+', '*', '&&', '||', 'do', 'nest', 'ifbool', 'fsum', 'typed', 'emptydo', 'evalmacro', 'formarg'])
+    k = rng.choice(['if', 'if', '+', '+', '*', '&&', '||', 'do', 'nest', 'ifbool', 'fsum', 'typed', 'emptydo', 'evalmacro', 'formarg', 'casekey'])
+    if k == 'casekey':
+        # the key of a case clause is data (it is compared as it stands, never evaluated): a constant expression written there is not folded
+        e = rng.choice(['(+ 1 2)', '(* 2 3)', '(if #t 1 2)', '(do 5)', '(&& 1 2)', '(|| 0 0)', '(+ "a" "b")'])
+        v = rng.choice(['3', '6', '1', '5', '#t', '#f', '"ab"', f"'{e}", 'x', '(+ 1 2)'])
+        return rng.choice([f'(case {v} ({e} "key") (default "dflt"))', f'(case {v} (7 "seven") ({e} (print "k") 1) (default (print "d") 2))',
+                           f'(case {v} ({e} {e}) (default {e}))', f'(case {e} (3 "three") (6 "six") (default {e}))'])
     if k == 'formarg':
         # neighbours that take an expression as it stands (evaluated later, per scope / per position): what the pass makes of a constant
         # operand is still an expression they accept
